@@ -382,6 +382,10 @@ class VEx:
             k0 = _modulo_pure(exprs[0])
             if not _has_unknown(exprs[0]) and all(_modulo_pure(e_) == k0 for e_ in exprs[1:]):
                 val = exprs[0]
+            elif want is not None and 2 <= len(exprs) <= 6 and not any(_has_unknown(e_) for e_ in exprs) and \
+                    all(e_[0] == "agg" and str(e_[1]).rsplit("::", 1)[-1] == want[2] for e_ in exprs):
+                # several `Ok(..)` returns of a helper with different payloads: the value is one of them
+                val = ("agg", "one-of", tuple(exprs), ())
         memo[key] = val
         return val
 
@@ -706,6 +710,12 @@ class Prover:
     # ---- intervals of atoms / expressions
     def interval(self, e):
         k = e[0]
+        if k == "agg" and e[1] == "one-of" and e[2]:
+            # one of several values (the `Ok(..)` alternatives a helper can return): the union of their intervals
+            rs = [self.interval(a) for a in e[2]]
+            if any(r is None for r in rs):
+                return None
+            return (min(r[0] for r in rs), max(r[1] for r in rs))
         if k == "len":
             r = self.vec_len_interval(e[1])
             return r or (0, LEN_MAX)
@@ -1190,6 +1200,24 @@ def unq(e, depth=0):
             return unq(("proj", b2[2][0], ("@Some", "0") + flds[2:]), depth + 1)
         if b2[0] == "call" and b2[1] in ("core::result::Result::<T, E>::map_err",) and b2[2] and flds[:1] == ("@Ok",):
             return unq(("proj", b2[2][0], flds), depth + 1)
+        if b2[0] == "agg" and b2[1] == "one-of" and flds and isinstance(flds[0], str) and flds[0][:1] == "@":
+            vn = flds[0][1:]
+            alts = []
+            ok_ = True
+            for a_ in b2[2]:
+                a2_ = strip_ref(a_) if a_[0] == "ref" else a_
+                if a2_[0] == "agg" and str(a2_[1]).rsplit("::", 1)[-1] == vn:
+                    alts.append(unq(("proj", a2_, flds), depth + 1))
+                elif a2_[0] == "agg" and str(a2_[1]).rsplit("::", 1)[-1] in ("Ok", "Err", "Some", "None", "Continue", "Break"):
+                    continue
+                elif a2_[0] == "call" and str(a2_[1]).endswith("FromResidual::from_residual") and vn in ("Ok", "Some"):
+                    continue
+                else:
+                    ok_ = False
+            if ok_ and len(alts) == 1:
+                return alts[0]
+            if ok_ and len(alts) > 1:
+                return ("agg", "one-of", tuple(alts), ())
         # `(Ok(x) as Ok).0` is x (an aggregate read back through the variant it was built with)
         if b2[0] == "agg" and len(flds) >= 2 and isinstance(flds[0], str) and flds[0][:1] == "@" and \
                 str(b2[1]).rsplit("::", 1)[-1] == flds[0][1:] and isinstance(flds[1], str) and flds[1].isdigit() and int(flds[1]) < len(b2[2]):
